@@ -1,6 +1,6 @@
 (* Service life-cycle: the transitions of the recoverer model (Model/Lifecycle.v, repaired code = cfg_new) follow the
    decisions of pkg/v3/service/recoverable.go as /verif/gen translated them from /repo's current source. *)
-From Coq Require Import ZArith Bool List.
+From Coq Require Import ZArith Bool List Lia.
 From Verif Require Import Base.GenIR Gen.GeneratedTr Model.Lifecycle.
 Import ListNotations.
 Open Scope Z_scope.
@@ -201,6 +201,67 @@ Proof.
   intros s e H. unfold step. rewrite H. cbn.
   destruct (v_started s) eqn:E1; destruct (v_stopped s) eqn:E2; destruct e; cbn;
     eexists; (split; [reflexivity|]); cbn; auto.
+Qed.
+
+(* the coordinator is a start-once service (KOnce), like the tickers: a refused StartOnce is returned as the error,
+   otherwise the two cache collectors are launched (1, 2) and the polling loop runs on Start's own goroutine (3) *)
+Lemma gen_coord_start_once : forall s, s_g s = GLaunched ->
+  exists s1, step (cfg_new KOnce) s GEnter = Some s1 /\
+  match g_coord_start (v_started s) with
+  | ([], RetO 1) => s_g s1 = GSend MErr /\ v_started s1 = v_started s
+  | ([1; 2; 3], RetO 0) => s_g s1 = GActive /\ v_started s1 = true
+  | _ => False
+  end.
+Proof.
+  intros s H. unfold step. rewrite H. cbn. destruct (v_started s) eqn:E; eexists; (split; [reflexivity|]); cbn; auto.
+Qed.
+
+(* run: `done` is closed when run returns (1), the timer (2, 3) and the stop context (4, 5) are set up, then the loop
+   (6).  The loop ends on a stop request; a tick polls the event provider (1) and re-arms the timer - at once (2) when
+   the poll took longer than the cadence, else for the rest of the cadence (3) - whether or not the poll failed,
+   unless the stop request arrived during the poll, which ends the run *)
+Lemma gen_coord_run : forall p m t c,
+  g_coord_run = ([1; 2; 3; 4; 5; 6], Fall) /\
+  g_coord_run_body false true p m t c = ([], RetU) /\
+  g_coord_run_body true false true true t c = ([1], RetU) /\
+  ((t > c)%Z -> g_coord_run_body true false p false t c = ([1; 2], Fall)) /\
+  ((t <= c)%Z -> g_coord_run_body true false p false t c = ([1; 3], Fall)) /\
+  ((t > c)%Z -> g_coord_run_body true false false m t c = ([1; 2], Fall)) /\
+  ((t <= c)%Z -> g_coord_run_body true false false m t c = ([1; 3], Fall)).
+Proof.
+  intros p m t c.
+  split; [reflexivity|]. split; [reflexivity|]. split; [reflexivity|].
+  split; [intros H; unfold g_coord_run_body; destruct p; gen_split; try lia; reflexivity|].
+  split; [intros H; unfold g_coord_run_body; destruct p; gen_split; try lia; reflexivity|].
+  split; intros H; unfold g_coord_run_body; gen_split; try lia; reflexivity.
+Qed.
+
+(* Close (inside StopOnce): signal (1), wait for run to return (2) - the model's CSvcL / CWaitL - then stop the two
+   cache collectors (3, 4) *)
+Lemma gen_coord_close : forall s, s_c s = CSvc -> v_started s = true -> v_stopped s = false ->
+  g_coord_close = ([1; 2; 3; 4], RetO 0) /\
+  exists s1, step (cfg_new KOnce) s CSvcL = Some s1 /\ v_stopreq s1 = true /\ v_stopped s1 = true /\ s_c s1 = CWait CNil /\
+  (g_active (s_g s1) = true -> step (cfg_new KOnce) s1 CWaitL = None).
+Proof.
+  intros s Hc Hs Hp. split; [reflexivity|]. unfold step at 1. rewrite Hc. cbn. rewrite Hs, Hp. cbn.
+  eexists. split; [reflexivity|]. cbn. repeat split. intros Ha. unfold step. cbn. rewrite Ha. reflexivity.
+Qed.
+
+(* the shared runner is flag based, like the metadata store: Start refuses while running, else sets the flag (1),
+   launches the cache collector (2) and waits for Close (3); Close refuses while the flag is clear (the known finding
+   close_before_service_start), else stops the collector (1) and the worker group (2), clears the flag (3) and
+   releases Start (4) *)
+Lemma gen_runner_lifecycle : forall s, s_c s = CSvc ->
+  g_runner_start true = ([], RetO 1) /\ g_runner_start false = ([1; 2; 3], RetO 0) /\
+  exists s1, step (cfg_new KOnce) s CSvcL = Some s1 /\
+  match g_runner_close (negb (v_started s && negb (v_stopped s))) (v_started s && negb (v_stopped s)) with
+  | ([], RetO 1) => s_c s1 = CSig CSvcErr /\ v_stopreq s1 = v_stopreq s
+  | ([1; 2; 3; 4], RetO 0) => s_c s1 = CWait CNil /\ v_stopreq s1 = true /\ v_stopped s1 = true
+  | _ => False
+  end.
+Proof.
+  intros s H. split; [reflexivity|]. split; [reflexivity|]. unfold step. rewrite H. cbn.
+  destruct (v_started s) eqn:E1; destruct (v_stopped s) eqn:E2; cbn; eexists; (split; [reflexivity|]); cbn; auto.
 Qed.
 
 (* plugin.Close closes every recoverer, in order, joining the errors; startServices launches every recoverer *)
